@@ -10,6 +10,7 @@ import (
 	"sync/atomic"
 	"time"
 
+	"github.com/pingcap/kvproto/pkg/kvrpcpb"
 	tikverr "github.com/tikv/client-go/v2/error"
 	"github.com/tikv/client-go/v2/kv"
 	"github.com/tikv/client-go/v2/tikv"
@@ -21,8 +22,9 @@ type Txn struct {
 	id    string
 	cl    *Client
 	t     *tikv.KVTxn
-	pess  bool
-	ended bool
+	pess   bool
+	ended  bool
+	alevel string
 }
 
 type Run struct {
@@ -136,8 +138,14 @@ func (r *Run) do(o M) M {
 			t.SetPessimistic(getb(o, "pess"))
 			t.SetEnableAsyncCommit(getb(o, "async"))
 			t.SetEnable1PC(getb(o, "onepc"))
+			switch gets(o, "alevel") {
+			case "fast":
+				t.SetAssertionLevel(kvrpcpb.AssertionLevel_Fast)
+			case "strict":
+				t.SetAssertionLevel(kvrpcpb.AssertionLevel_Strict)
+			}
 			txnMu.Lock()
-			r.txns[gets(o, "txn")] = &Txn{id: gets(o, "txn"), cl: cl, t: t, pess: getb(o, "pess")}
+			r.txns[gets(o, "txn")] = &Txn{id: gets(o, "txn"), cl: cl, t: t, pess: getb(o, "pess"), alevel: gets(o, "alevel")}
 			txnMu.Unlock()
 			ret["start"] = cts(t.StartTS())
 			ret["pess"] = getb(o, "pess")
@@ -183,7 +191,21 @@ func (r *Run) do(o M) M {
 	case "set":
 		ret["class"] = errClass(tx.t.Set(keyOf(geti(o, "k")), valOf(geti(o, "v"))))
 	case "insert":
-		ret["class"] = errClass(tx.t.GetMemBuffer().SetWithFlags(keyOf(geti(o, "k")), valOf(geti(o, "v")), kv.SetPresumeKeyNotExists))
+		fl := []kv.FlagsOp{kv.SetPresumeKeyNotExists}
+		if getb(o, "newly") { // what TiDB does for a freshly inserted row
+			fl = append(fl, kv.SetNewlyInserted)
+		}
+		ret["class"] = errClass(tx.t.GetMemBuffer().SetWithFlags(keyOf(geti(o, "k")), valOf(geti(o, "v")), fl...))
+	case "assert":
+		fop := kv.SetAssertUnknown
+		switch gets(o, "a") {
+		case "exist":
+			fop = kv.SetAssertExist
+		case "notexist":
+			fop = kv.SetAssertNotExist
+		}
+		tx.t.GetMemBuffer().UpdateFlags(keyOf(geti(o, "k")), fop)
+		ret["class"] = "nil"
 	case "delete":
 		ret["class"] = errClass(tx.t.Delete(keyOf(geti(o, "k"))))
 	case "lock":
@@ -214,12 +236,27 @@ func (r *Run) do(o M) M {
 		}
 		ret["vals"] = vals
 	case "commit":
+		// the buffer as the committer will see it: value (-1: none, 0: tombstone) and the flags that decide the mutation
 		buf := []M{}
-		it, _ := tx.t.GetMemBuffer().Iter(nil, nil)
-		for ; it.Valid(); it.Next() {
-			buf = append(buf, M{"k": keyIdx(it.Key()), "val": valInt(it.Value())})
+		mb := tx.t.GetMemBuffer()
+		for k := 1; k <= 4; k++ {
+			fl, ferr := mb.GetFlags(keyOf(k))
+			v, verr := mb.Get(ctx, keyOf(k))
+			if ferr != nil && verr != nil {
+				continue
+			}
+			val := -1
+			if verr == nil {
+				val = valInt(v.Value)
+			}
+			buf = append(buf, M{"k": k, "val": val, "pne": fl.HasPresumeKeyNotExists(), "locked": fl.HasLocked(), "newly": fl.HasNewlyInserted(),
+				"aex": fl.HasAssertExist(), "anex": fl.HasAssertNotExist(), "pcc": fl.HasNeedConstraintCheckInPrewrite()})
 		}
-		call2 := M{"ev": "commit_buffer", "txn": tx.id, "buffer": buf}
+		alevel := tx.alevel
+		if alevel == "" {
+			alevel = "off"
+		}
+		call2 := M{"ev": "commit_buffer", "txn": tx.id, "buffer": buf, "pess": tx.t.IsPessimistic(), "alevel": alevel}
 		w.rec.emit(call2)
 		err := tx.t.Commit(ctx)
 		tx.ended = true
